@@ -420,4 +420,77 @@ func runC03(c *Ctx) {
 		}
 		c.Check(bad == "", "C03.R8", "NewNetworkRule: trailing '/*' becomes '^' with exactly that suffix removed", nnr.Pos(), "pattern[:len-len(suffix)] + MaskSeparator under HasSuffix(pattern, suffix)", bad)
 	}
+
+	// ---------- R9: the expansion constants mean what the syntax documents ----------
+	// The constants are read from the source and interpreted inside the checker (Go's regexp on the
+	// constant text, against a table of the documented cases); nothing of urlfilter runs.
+	c.Rule("C03.R9", "TBL", "mask characters and their expansions have the documented meaning", 9)
+	{
+		exact := map[string]string{"MaskStartURL": "||", "MaskPipe": "|", "MaskSeparator": "^", "MaskAnyCharacter": "*", "RegexStartString": "^", "RegexEndString": "$"}
+		for _, n := range []string{"MaskStartURL", "MaskPipe", "MaskSeparator", "MaskAnyCharacter", "RegexStartString", "RegexEndString"} {
+			c.Check(K[n] == exact[n], "C03.R9", "constant "+n, nnr.Pos(), fmt.Sprintf("%q", exact[n]), fmt.Sprintf("the constant is %q, the syntax documents %q", K[n], exact[n]))
+		}
+		full := func(src string) (*regexp.Regexp, error) { return regexp.Compile("^(?:" + src + ")$") }
+		// '*' : any run of characters, also the empty one
+		bad := ""
+		if re, err := full(K["RegexAnyCharacter"]); err != nil {
+			bad = "does not compile: " + err.Error()
+		} else {
+			for _, t := range []string{"", "a", "ads/banner.gif?x=1&y=%20", "||^*", "ÿ"} {
+				if !re.MatchString(t) {
+					bad = fmt.Sprintf("the expansion of '*' (%q) does not accept %q: '*' stands for any run of characters", K["RegexAnyCharacter"], t)
+				}
+			}
+		}
+		c.Check(bad == "", "C03.R9", "constant RegexAnyCharacter", nnr.Pos(), "accepts every sample string", bad)
+		// '^' : one character that is not a letter, a digit or one of _ - . %, or the end of the address
+		bad = ""
+		if re, err := full(K["RegexSeparator"]); err != nil {
+			bad = "does not compile: " + err.Error()
+		} else {
+			for ch := 33; ch < 127 && bad == ""; ch++ {
+				isWord := (ch >= 'a' && ch <= 'z') || (ch >= 'A' && ch <= 'Z') || (ch >= '0' && ch <= '9') || strings.ContainsRune("_-.%", rune(ch))
+				if got := re.MatchString(string(rune(ch))); got == isWord {
+					bad = fmt.Sprintf("the expansion of '^' (%q) %s %q: a separator is any character but a letter, a digit or one of _ - . %%", K["RegexSeparator"], map[bool]string{true: "accepts", false: "rejects"}[got], string(rune(ch)))
+				}
+			}
+			if bad == "" && !re.MatchString("") {
+				bad = "the expansion of '^' does not accept the end of the address"
+			}
+			if bad == "" && re.MatchString("//") {
+				bad = "the expansion of '^' accepts more than one character"
+			}
+		}
+		c.Check(bad == "", "C03.R9", "constant RegexSeparator", nnr.Pos(), "one non-word character or the end, on all printable ASCII characters", bad)
+		// '||' : http://, https://, ws://, wss://, each optionally followed by subdomains
+		bad = ""
+		if re, err := regexp.Compile(K["RegexStartURL"]); err != nil {
+			bad = "does not compile: " + err.Error()
+		} else {
+			for _, sch := range []string{"http", "https", "ws", "wss"} {
+				for _, rest := range []string{"example.org/", "sub.example.org/x", "a-b_c.example.org"} {
+					u := sch + "://" + rest
+					loc := re.FindStringIndex(u)
+					if loc == nil || loc[0] != 0 {
+						bad = fmt.Sprintf("the expansion of '||' (%q) does not accept %q: '||' stands for http://*., https://*., ws://*. and wss://*.", K["RegexStartURL"], u)
+					}
+				}
+			}
+			for _, u := range []string{"ftp://example.org/", "xhttp://example.org/", "http:/example.org", "httpss://example.org", "wsss://example.org", "example.org/http://x.org/"} {
+				if loc := re.FindStringIndex(u); loc != nil && loc[0] == 0 && bad == "" {
+					bad = fmt.Sprintf("the expansion of '||' (%q) accepts %q", K["RegexStartURL"], u)
+				}
+			}
+			// the remainder of the pattern must be able to start at any label: with the expansion
+			// followed by "example.org", sub.example.org and example.org match, notexample.org does not
+			if re2, err := regexp.Compile(K["RegexStartURL"] + "example\\.org"); err == nil && bad == "" {
+				for u, want := range map[string]bool{"http://example.org": true, "https://a.b.example.org": true, "http://notexample.org": false} {
+					if re2.MatchString(u) != want {
+						bad = fmt.Sprintf("'||example.org' %s %q", map[bool]string{true: "does not match", false: "matches"}[want], u)
+					}
+				}
+			}
+		}
+		c.Check(bad == "", "C03.R9", "constant RegexStartURL", nnr.Pos(), "the four schemes with optional subdomains, nothing else; label boundary before the rest", bad)
+	}
 }
